@@ -278,12 +278,22 @@ class WebSocket:
                             self.handshake_response.headers,
                         )
                     self.sock.close()
-                    self.sock, addrs = connect(
-                        url,
-                        self.sock_opt,
-                        proxy_info(**options),
-                        options.pop("socket", None),
-                    )
+                    try:
+                        self.sock, addrs = connect(
+                            url,
+                            self.sock_opt,
+                            proxy_info(**options),
+                            options.pop("socket", None),
+                        )
+                    except ValueError as e:
+                        # the redirect target comes from the server, not from the caller
+                        self.sock = None
+                        raise WebSocketBadStatusException(
+                            f"Handshake status {self.handshake_response.status}: invalid redirect location {url!r}: {e}",
+                            self.handshake_response.status,
+                            None,
+                            self.handshake_response.headers,
+                        )
                     self.handshake_response = handshake(
                         self.sock, url, *addrs, **options
                     )
